@@ -91,6 +91,25 @@ def cmd_run(prop, tier, rebaseline=False):
     try:
         mod = importlib.import_module('checks.' + prop.lower())
         res = mod.run(tier, seed)
+        dbg = None
+        if tier == 'thorough' and os.environ.get('VERIF_LOG_DEBUG') != '1':
+            # second pass: the quick exploration again with the library's debug logging switched on (the code behind
+            # `if _logger.isEnabledFor(DEBUG)` and the formatting of every log call then runs too)
+            from harness.repo import DebugLogging
+            with DebugLogging():
+                dbg = mod.run('quick', seed)
+            seen = set(v['wid'] for v in res['acc'].violations)
+            extra = 0
+            for v in dbg['acc'].violations:
+                if v['wid'] not in seen:
+                    v = dict(v, env='debug-logging')
+                    res['acc'].violations.append(v)
+                    extra += 1
+            res.setdefault('coverage', {})['debug_logging_pass'] = dict(
+                tier='quick', evaluations=dbg['acc'].n.get('evaluations', 0), violations_only_seen_there=extra,
+                harness_error=dbg.get('harness_error'))
+            if dbg.get('harness_error') and not res.get('harness_error'):
+                res['harness_error'] = 'debug-logging pass: ' + dbg['harness_error']
     except SystemExit:
         raise
     except BaseException:   # noqa
@@ -126,7 +145,7 @@ def cmd_run(prop, tier, rebaseline=False):
             path = os.path.join(HERE, 'replays', '%s-%s.json' % (prop, v['wid']))
             with open(path, 'w') as f:
                 json.dump(dict(property=prop, sig=sig, witness=v['witness'], msg=v['msg'],
-                               cfg=v['cfg'], same_signature=len(vs)), f, indent=1, default=_jd)
+                               cfg=v['cfg'], same_signature=len(vs), **({'env': v['env']} if v.get('env') else {})), f, indent=1, default=_jd)
             if printed < 40:
                 print('VIOLATION property=%s replay=%s  # %s: %s (%d witnesses)'
                       % (prop, path, sig, v['msg'][:200], len(vs)))
@@ -197,7 +216,12 @@ def cmd_replay(path):
     with open(path) as f:
         r = json.load(f)
     mod = importlib.import_module('checks.' + r['property'].lower())
-    violated, text = mod.replay(r['witness'])
+    if r.get('env') == 'debug-logging':
+        from harness.repo import DebugLogging
+        with DebugLogging():
+            violated, text = mod.replay(r['witness'])
+    else:
+        violated, text = mod.replay(r['witness'])
     print(text)
     print('replay of %s: %s' % (path, 'VIOLATION reproduced' if violated else 'no violation'))
     return 1 if violated else 0
